@@ -54,14 +54,21 @@ def _alarm(signum, frame):
 
 
 def with_timeout(fn, seconds=5):
-    old = signal.signal(signal.SIGALRM, _alarm)
-    # repeating: library code that swallows exceptions (try/except inside cmp, as_primitive) must not eat the only alarm
-    signal.setitimer(signal.ITIMER_REAL, seconds, 0.05)
+    """run fn(); raise Timeout when it has burnt `seconds` of CPU time (ITIMER_VIRTUAL: a call that spins is caught
+    whatever the load on the machine, and a loaded machine does not turn a slow call into a "did not return"), or when
+    10 x `seconds` (at least 30 s) of wall-clock time have passed (a call that blocks without burning CPU).
+    Both timers repeat: library code that swallows exceptions (try/except inside cmp, as_primitive) must not eat the only alarm."""
+    old_v = signal.signal(signal.SIGVTALRM, _alarm)
+    old_r = signal.signal(signal.SIGALRM, _alarm)
+    signal.setitimer(signal.ITIMER_VIRTUAL, seconds, 0.05)
+    signal.setitimer(signal.ITIMER_REAL, max(30.0, 10.0 * seconds), 0.05)
     try:
         return fn()
     finally:
+        signal.setitimer(signal.ITIMER_VIRTUAL, 0)
         signal.setitimer(signal.ITIMER_REAL, 0)
-        signal.signal(signal.SIGALRM, old)
+        signal.signal(signal.SIGVTALRM, old_v)
+        signal.signal(signal.SIGALRM, old_r)
 
 
 # ------------------------------------------------------------------ lean side
